@@ -11,13 +11,19 @@ RULE = ("generated signatures (hand-picked shapes + PRNG: up to 4 [quick] / 6 [t
         "literal keywords, functools.partial) x call paths (def, Python-class bound method, cdef-class method, cpdef, "
         "tp_init/tp_call special methods); a case is distinct by (build, target, positional count, keyword list with kinds, "
         "style); non-trivial = at least one parameter bound or one TypeError branch taken")
-EXPLANATION = ("theorems: for every well-formed signature and every call (distinct keys), the model of the generated "
-               "wrapper + ParseKeywords (kwnames-tuple path, dict path, dict-to-dict path, star-arg copy path, METH_NOARGS) "
-               "binds exactly as CPython's initialize_locals or both raise TypeError; same *args tuple, same **kwargs "
-               "content and order. Correspondence: compiled functions vs the same-signature pure-Python functions under "
-               "CPython (property oracle) vs the extracted model (tie: bound values and WHICH error the generated code "
-               "raises; bind_py's error kind is also tied to CPython's message). partial: the call-path plumbing of "
-               "CythonFunction.c/CPython (vectorcall -> wrapper, functools.partial, method binding) is only tested.")
+EXPLANATION = ("theorems (all signatures, all calls with pairwise distinct keys, abstract values): the model of the generated "
+               "wrapper (switch on the positional count, ParseKeywords, required-argument loops, star-arg copy code, "
+               "METH_NOARGS/METH_O entry points) binds exactly as CPython's initialize_locals - same value or default per "
+               "parameter, same *args tuple, same **kwargs content and order - or both raise TypeError; the kwnames-tuple "
+               "loop and CPython's loop are each proved equal to one reference loop including the error kind; the "
+               "distinct-keys hypothesis is shown necessary. Correspondence: compiled functions vs the same-signature "
+               "pure-Python functions under CPython (property oracle) vs the extracted model (tie: bound values and WHICH "
+               "error the generated code raises; bind_py's error kind is also tied to CPython's message). "
+               "partial: for wrappers with named parameters entered with a kwds *dict* (def f(*args, k=..), tp_init/tp_call, "
+               "CYTHON_VECTORCALL=0) the theorem is proved only up to one explicit obligation on __Pyx_ParseKeywordDict / "
+               "__Pyx_ParseKeywordDictToDict (they agree with the reference loop up to the error kind), which is tested, "
+               "not proved; the call-path plumbing of CythonFunction.c/CPython (vectorcall -> wrapper, functools.partial, "
+               "method binding) is only tested.")
 TRUSTED = ["CPython's callers hand a vectorcall callee a kwnames tuple of pairwise distinct str keys (PEP 590; "
            "_PyStack_UnpackDict raises TypeError for non-str keys) and dict keys are pairwise distinct",
            "str-subclass keys use str's __eq__/__hash__",
@@ -219,11 +225,49 @@ def run(mod, c):
         return {"bad": repr(e)}
 cy = importlib.import_module(spec["cy"])
 py = importlib.import_module(spec["py"])
-out = []
-for c in spec["cases"]:
-    out.append([run(cy, c), run(py, c)])
-print(json.dumps(out))
+for i, c in enumerate(spec["cases"]):
+    if i < spec.get("start", 0):
+        continue
+    print(json.dumps({"b": i}), flush=True)
+    print(json.dumps({"i": i, "r": [run(cy, c), run(py, c)]}), flush=True)
+print(json.dumps({"done": 1}), flush=True)
 '''
+
+
+def run_driver(ctx, modname, cases):
+    """one result pair per case; a crash of the interpreter is an observed outcome of the case that had begun"""
+    results = [None] * len(cases)
+    start = 0
+    crashes = 0
+    while start < len(cases):
+        res = cybuild.run_script(DRIVER, ctx.workdir, {"cy": modname, "py": modname + "_py", "cases": cases, "start": start},
+                                 timeout=900, name="drv_%s.py" % modname)
+        begun = None
+        done = False
+        for line in (res["out"] or "").splitlines():
+            try:
+                d = json.loads(line)
+            except Exception:
+                continue
+            if "b" in d:
+                begun = d["b"]
+            elif "i" in d:
+                results[d["i"]] = d["r"]; begun = None
+            elif "done" in d:
+                done = True
+        if done:
+            break
+        if begun is None:
+            return None, (res["err"] or res["out"])[-1500:]
+        results[begun] = [{"e": "CRASH", "m": "interpreter died rc=%s" % res["rc"]}, {"e": "SKIPPED", "m": ""}]
+        crashes += 1
+        start = begun + 1
+        if crashes > 25:
+            for i in range(start, len(cases)):
+                results[i] = [{"e": "CRASH", "m": "too many crashes"}, {"e": "SKIPPED", "m": ""}]
+            break
+    return results, None
+
 
 
 def cy_kind(msg):
@@ -436,10 +480,9 @@ def run_build(ctx, bname, sigs, targets, n_random, nchunks):
                     base = 101 if kind == "pm" else 100
                     cases.append([t, base, npos, kws, style])
                     meta.append((gi, kind, pathc))
-        res = cybuild.run_script(DRIVER, ctx.workdir, {"cy": sp["name"], "py": sp["name"] + "_py", "cases": cases},
-                                 timeout=900, name="drv_%s.py" % sp["name"])
-        if res["json"] is None:
-            ctx.corr_break("driver " + sp["name"], sp["name"], (res["err"] or res["out"])[-1500:], "driver output")
+        results, derr = run_driver(ctx, sp["name"], cases)
+        if results is None:
+            ctx.corr_break("driver " + sp["name"], sp["name"], derr, "driver output")
             continue
         mq = []
         for c, (gi, kind, pathc) in zip(cases, meta):
@@ -453,7 +496,7 @@ def run_build(ctx, bname, sigs, targets, n_random, nchunks):
             mq.append("call%d %s %s %d %s" % (vc, pc, sg, np_, model_kws(kws)))
             mq.append("callpy %s %s %d %s" % (pc, sg, np_, model_kws(kws)))
         mres = model.batch(mq)
-        for j, (c, (gi, kind, pathc), (rc, rp)) in enumerate(zip(cases, meta, res["json"])):
+        for j, (c, (gi, kind, pathc), (rc, rp)) in enumerate(zip(cases, meta, results)):
             t, base, npos, kws, style = c
             s = sigs[gi]
             inp = {"build": bname, "sig": s, "kind": kind, "path": pathc, "npos": npos, "kws": kws, "style": style}
@@ -472,6 +515,9 @@ def run_build(ctx, bname, sigs, targets, n_random, nchunks):
             feats = features(s, kind, npos, kws)
             stratum = "%s/%s/%s/%s/%s" % (bname, kind, pathc, style, mc[1] if mc[0] == "E" else "bound")
             ctx.case(stratum, inp, sig=(bname, json.dumps(s, sort_keys=True), kind, npos, json.dumps(kws), style))
+            if ic[0] == "E" and ic[1] == "CRASH":
+                ctx.fail(classify(s, kind, pathc, npos, kws), inp, ic, mp, note="interpreter crashed in the compiled call")
+                continue
             # (1) oracle model vs CPython (ties bind_py to the interpreter)
             if ip[0] == "X" or ip[0] != mp[0] or (ip[0] == "B" and tuple(ip[1:]) != tuple(mp[1:])) or \
                     (ip[0] == "E" and (ip[1] != "TypeError" or not kinds_agree(ip[2], mp[1], style, kws))):
@@ -522,5 +568,5 @@ def replay(ctx, obj):
         f.write(gen_module([s], [[kind]], False))
     base = 101 if kind == "pm" else 100
     case = ["%s0" % kind, base, inp["npos"], inp["kws"], inp["style"]]
-    res = cybuild.run_script(DRIVER, ctx.workdir, {"cy": name, "py": name + "_py", "cases": [case]})
-    print("replayed:", json.dumps(inp), "->", res["json"] or res["err"][-500:], "expected", obj.get("expected"))
+    results, derr = run_driver(ctx, name, [case])
+    print("replayed:", json.dumps(inp), "->", results or derr, "expected", obj.get("expected"))
